@@ -75,6 +75,17 @@ def games(draw, max_n: int, min_n: int = 1):
             k = draw(st.integers(1, 8))
             v = [x * 2.0 ** -k for x in v]
     v = [float(x) for x in v]
+    shape = draw(st.sampled_from(["plain", "plain", "scaled", "dominated"]))
+    if shape == "scaled":
+        # homogeneity at extreme scales (exact for powers of two): tiny and huge games are games too
+        f = 2.0 ** draw(st.sampled_from([-40, -30, -20, 20, 30]))
+        v = [x * f for x in v]
+    elif shape == "dominated":
+        # one coalition structure worth orders of magnitude more than the rest: every other player's marginal
+        # contributions are tiny RELATIVE to the values they are added to, yet not zero
+        owner = draw(st.integers(0, n - 1))
+        big = 2.0 ** draw(st.sampled_from([20, 24, 30]))
+        v = [(big if s >> owner & 1 else 0.0) + (x if cls == "float" else round(x)) % 4 for s, x in enumerate(v)]
     v[0] = 0.0
     perm = draw(st.permutations(list(range(n))))
     null = draw(st.integers(0, n - 1))
